@@ -115,6 +115,27 @@ func crash(kind string) {
 		os.Exit(3)
 	case "exit-125":
 		os.Exit(125)
+	case "print-types":
+		// the program's own print/println of every basic kind must survive -tiny
+		var e error
+		var m map[string]int
+		println("OWN: ints", -7, uint8(200), int64(1)<<40, uintptr(9))
+		println("OWN: floats", 1.5, float32(0.25), 1e100, -0.0)
+		println("OWN: misc", true, false, "s", 'x', complex(1, -2), e == nil, m == nil, len(os.Args))
+		print("OWN: joined", 1, "a", true, 2.5, "\n")
+		return
+	case "goexit-child-only":
+		done := make(chan struct{})
+		go func() {
+			defer close(done)
+			runtime.Goexit()
+		}()
+		<-done
+		return
+	case "panic-pointer":
+		panic(&custom{2, "p"})
+	case "panic-sprintf":
+		panic(fmt.Sprintf("formatted %d %s", 3, "x"))
 	case "return":
 		return
 	default:
@@ -137,6 +158,8 @@ func describe(r any) string {
 		return "stringer:" + v.String()
 	case custom:
 		return "custom:" + strconv.Itoa(v.A) + v.B
+	case *custom:
+		return "custom-pointer:" + strconv.Itoa(v.A) + v.B
 	case string:
 		return "string:" + v
 	case int:
@@ -208,7 +231,8 @@ func Where() string {
 '''
 KINDS = ["panic-string", "panic-error", "panic-custom-error", "panic-stringer", "panic-custom", "panic-nil", "panic-int", "panic-in-dep", "nil-deref", "index",
          "slice-bounds", "div-zero", "type-assert", "type-assert-iface", "nil-map", "close-closed", "close-nil", "send-closed", "deadlock", "repanic-defer",
-         "recover-then-repanic", "goexit", "stack-overflow", "unlock-unlocked", "exit-0", "exit-1", "exit-3", "exit-125", "return"]
+         "recover-then-repanic", "goexit", "stack-overflow", "unlock-unlocked", "exit-0", "exit-1", "exit-3", "exit-125", "return",
+         "print-types", "goexit-child-only", "panic-pointer", "panic-sprintf"]
 CTXS = ["main", "goroutine", "deferred", "after-recover"]
 TBS = [None, "none", "all"] if tier == "quick" else [None, "none", "single", "all", "system", "crash"]
 FLAGSETS = [["-tiny"]] if tier == "quick" else [["-tiny"], ["-tiny", "-literals"], ["-tiny", "-seed=AAAAAAAAAAA"]]
